@@ -100,13 +100,21 @@ func loopbackHost() string {
 	return fmt.Sprintf("127.%d.%d.%d", 16+(p>>16)%200, (p>>8)&255, 1+p%250)
 }
 
+var portRand = rand.New(rand.NewSource(int64(os.Getpid())*7919 + 17))
+
+// freePort picks a port on host that is free right now, below the kernel's ephemeral range
+// (32768-60999 here), so that no other process's bind to port 0 can take it in the meantime.
 func freePort(host string) int {
-	ln, err := net.Listen("tcp", host+":0")
-	if err != nil {
-		panic(err)
+	for try := 0; try < 200; try++ {
+		p := 20000 + portRand.Intn(12000)
+		ln, err := net.Listen("tcp", fmt.Sprintf("%s:%d", host, p))
+		if err != nil {
+			continue
+		}
+		ln.Close()
+		return p
 	}
-	defer ln.Close()
-	return ln.Addr().(*net.TCPAddr).Port
+	panic("no free port on " + host)
 }
 
 func newC15Env() (*c15Env, error) {
